@@ -151,8 +151,43 @@ impl Context {
         self.defs.get(&name.into())
     }
 
+    // Character constants are opaque to macro substitution: while the macros are applied they
+    // are replaced by placeholders (\x01 index \x01), also those a macro body brings in
+    fn mask_char_constants(s: &str, constants: &mut Vec<String>) -> String {
+        if !s.contains('\'') {
+            return s.to_string();
+        }
+        let chars: Vec<char> = s.chars().collect();
+        let mut masked = String::with_capacity(s.len());
+        let mut i = 0;
+        while i < chars.len() {
+            if chars[i] == '\'' {
+                // 'c' or '\c'
+                let len = if i + 2 < chars.len() && chars[i + 1] != '\\' && chars[i + 1] != '\'' && chars[i + 2] == '\'' {
+                    3
+                } else if i + 3 < chars.len() && chars[i + 1] == '\\' && chars[i + 3] == '\'' {
+                    4
+                } else {
+                    0
+                };
+                if len > 0 {
+                    masked.push('\u{1}');
+                    masked.push_str(&constants.len().to_string());
+                    masked.push('\u{1}');
+                    constants.push(chars[i..i + len].iter().collect());
+                    i += len;
+                    continue;
+                }
+            }
+            masked.push(chars[i]);
+            i += 1;
+        }
+        masked
+    }
+
     pub fn replace_all(&self, s: &str) -> String {
-        let mut res = String::from(s);
+        let mut constants = Vec::new();
+        let mut res = Self::mask_char_constants(s, &mut constants);
         let mut changed;
         loop {
             changed = false;
@@ -162,7 +197,7 @@ impl Context {
                         .0
                         .replace_all(&res, &self.regexes[i][idx].1);
                     if let Cow::Owned(z) = x {
-                        res = z.to_string();
+                        res = Self::mask_char_constants(&z, &mut constants);
                         changed = true;
                     }
                 }
@@ -170,6 +205,9 @@ impl Context {
             if !changed {
                 break;
             }
+        }
+        for (i, c) in constants.iter().enumerate().rev() {
+            res = res.replace(&format!("\u{1}{}\u{1}", i), c);
         }
         res
     }
